@@ -300,7 +300,7 @@ Definition py_isinstance1 (v : val) (t : pytype) : bool :=
   | TGpType, VEnum _ => true
   | TNpInteger, VNpScalar KI _ => true
   | TNpFloating, VNpScalar KF _ => true
-  | TIterable, (VArr _ (_ :: _) _ | VList _ | VTuple _ | VSet _ | VDict _ | VStr _) => true
+  | TIterable, (VArr _ _ _ | VJInt _ | VList _ | VTuple _ | VSet _ | VDict _ | VStr _) => true   (* ndarray defines __iter__ even when 0-d *)
   | TClass n, VObj c _ => string_eqb n c
   | _, _ => false
   end.
@@ -656,3 +656,122 @@ Definition res_eqb (a b : res val) : bool :=
   end.
 Definition failing (cases : list (nat * bool)) : list nat :=
   map fst (filter (fun c => negb (snd c)) cases).
+
+(* ------------------------------------------------------------------ *)
+(* array construction / reshaping used by validate_array and validate_time_x *)
+Definition py_hasattr (v : val) (name : string) : res val :=
+  Ok (VBool match v with
+            | VObj cls _ => string_eqb cls "sparse"%string && string_eqb name "todense"%string
+            | VArr _ _ _ => existsb (string_eqb name) ["shape"%string; "ndim"%string; "size"%string; "reshape"%string; "T"%string]
+            | _ => false
+            end).
+Definition m_todense (v : val) : res val :=
+  match v with VObj _ _ => Err OtherError | _ => Err AttributeError end.
+
+Definition np_isscalar (v : val) : res val :=
+  Ok (VBool match v with
+            | VBool _ | VInt _ | VFloat _ | VNpScalar _ _ | VJInt _ | VStr _ => true
+            | VArr _ [] _ => true
+            | _ => false
+            end).
+
+Fixpoint all_some {A} (l : list (option A)) : option (list A) :=
+  match l with
+  | [] => Some []
+  | Some a :: r => match all_some r with Some t => Some (a :: t) | None => None end
+  | None :: _ => None
+  end.
+Definition num_of_elem (v : val) : option xf :=
+  match v with VStr _ => None | _ => match as_num v with Some n => Some (num_xf n) | None => None end end.
+Definition seq_items (v : val) : option (list val) :=
+  match v with VList l | VTuple l => Some l | _ => None end.
+
+(* asarray(v, dtype=float) for arrays and for (nested, depth <= 2) sequences of numbers *)
+Definition np_asarray_float (v : val) : res val :=
+  match v with
+  | VArr _ sh d => Ok (VArr KF sh d)
+  | VJInt z => Ok (VArr KF [] [xf_of_Z z])
+  | VList l | VTuple l =>
+      match all_some (map num_of_elem l) with
+      | Some d => Ok (VArr KF [Z.of_nat (List.length l)] d)
+      | None =>
+          match all_some (map seq_items l) with
+          | Some rows =>
+              match rows with
+              | [] => Err ValueError
+              | r0 :: _ =>
+                  let c := List.length r0 in
+                  if forallb (fun r => Nat.eqb (List.length r) c) rows then
+                    match all_some (map num_of_elem (List.concat rows)) with
+                    | Some d => Ok (VArr KF [Z.of_nat (List.length rows); Z.of_nat c] d)
+                    | None => Err ValueError
+                    end
+                  else Err ValueError
+              end
+          | None => Err ValueError
+          end
+      end
+  | VStr _ => Err ValueError
+  | _ => match as_num v with
+         | Some n => Ok (VArr KF [] [num_xf n])
+         | None => Err TypeError
+         end
+  end.
+
+Definition py_all_gen (p : val -> res bool) (it : val) : res bool :=
+  match it with
+  | VTuple l | VList l =>
+      fold_right (fun x acc => bind (p x) (fun b => if b then acc else Ok false)) (Ok true) l
+  | _ => Err TypeError
+  end.
+Definition py_any_gen (p : val -> res bool) (it : val) : res bool :=
+  match it with
+  | VTuple l | VList l =>
+      fold_right (fun x acc => bind (p x) (fun b => if b then Ok true else acc)) (Ok false) l
+  | _ => Err TypeError
+  end.
+
+(* squeeze: drop all axes of length one *)
+Definition np_squeeze (v : val) : res val :=
+  match v with
+  | VArr k sh d => Ok (VArr k (filter (fun s => negb (Z.eqb s 1)) sh) d)
+  | _ => match as_num v with Some _ => Ok v | None => Err TypeError end
+  end.
+
+(* full(n, fill) with a scalar-like fill *)
+Definition np_full (n fill : val) : res val :=
+  match as_num n, fill with
+  | Some (NZ z), VArr k [] [x] => Ok (VArr k [z] (repeat x (Z.to_nat z)))
+  | Some (NZ z), VArr _ _ _ => Err ValueError              (* cannot broadcast *)
+  | Some (NZ z), _ =>
+      match fill, as_num fill with
+      | VStr _, _ => Err ValueError
+      | _, Some (NZ i) => Ok (VArr KI [z] (repeat (xf_of_Z i) (Z.to_nat z)))
+      | _, Some (NF f) => Ok (VArr KF [z] (repeat f (Z.to_nat z)))
+      | _, None => Err TypeError
+      end
+  | _, _ => Err TypeError
+  end.
+
+(* a.reshape(-1, 1) *)
+Definition np_reshape2 (a r c : val) : res val :=
+  match a, r, c with
+  | VArr k sh d, VInt (-1), VInt 1 => Ok (VArr k [Z.of_nat (List.length d); 1] d)
+  | VArr _ _ _, _, _ => Err OtherError
+  | _, _, _ => Err AttributeError
+  end.
+
+(* concatenate((a, b), axis=1) for 2-d arrays with equal row counts *)
+Fixpoint take_rows {A} (c : nat) (rows : nat) (d : list A) : list (list A) :=
+  match rows with O => [] | S r => firstn c d :: take_rows c r (skipn c d) end.
+Definition np_concat_cols (t : val) : res val :=
+  match t with
+  | VTuple [VArr k [r1; c1] d1; VArr k2 [r2; c2] d2] =>
+      if Z.eqb r1 r2 then
+        Ok (VArr (match k, k2 with KF, _ | _, KF => KF | _, _ => k end) [r1; c1 + c2]
+              (List.concat (zip_with (fun a b => a ++ b)
+                         (take_rows (Z.to_nat c1) (Z.to_nat r1) d1)
+                         (take_rows (Z.to_nat c2) (Z.to_nat r2) d2))))
+      else Err TypeError          (* jax: dimensions must match *)
+  | _ => Err TypeError
+  end.
